@@ -445,6 +445,11 @@ class ResolveStream(runner.Stream):
                     return f"module with value references does not resolve: {a[:120]}"
                 if a != b:
                     return "module with references resolves differently from its literal variant: " + first_diff(b, a)
+                if quirk == "enum_item_vs_value":
+                    # both variants keep `DEFAULT standby` on the ENUMERATED-typed components: they must be the items
+                    for item in ("standby", "active", "boost"):
+                        if f"(e,Mode,{item})" not in a:
+                            return f"DEFAULT {item} of a component typed by Mode is not the enumeration item (e,Mode,{item})"
                 return None
             want = "err resolve-reference" if expect == "unresolved" else "err resolve-literal"
             if a != want:
